@@ -29,7 +29,7 @@ REQUIRED = ['abs_condition_exact', 'rel_condition_exact', 'abs_threshold_exact',
             'sel_property_dispatch', 'quota_selector_exact', 'quota_selector_overflow_error',
             'quota_selector_overflow_select', 'jump_condition_exact', 'mem_jumpers', 'jump_threshold_spec', 'quota_fraction_scales_quota', 'openlist_no_threshold',
             'openlist_fill', 'openlist_overflow_by_votes', 'openlist_overflow_by_list', 'jumpers_nodup',
-            'jumpers_sorted', 'jumpers_sub_keys', 'openlist_length_distinct', 'openlist_order',
+            'jumpers_sorted', 'jumpers_sub_keys', 'openlist_length_distinct', 'openlist_length_min', 'openlist_order',
             'openlist_no_pass_over', 'openlist_overflow_votes_best', 'openlist_overflow_list_best', 'openlist_overflow_list_order',
             'break_by_list_only_tied', 'list_tiebreak_only_tied', 'break_by_list_nbest', 'sortByIndex_spec',
             'list_tiebreak_plurality_tie', 'list_tiebreak_no_tie', 'list_tiebreak_plurality_fits',
